@@ -39,7 +39,7 @@ def _input_key(ln):
     """the input part of an event (everything before the first output field)"""
     k = ln[6:ln.find('"', 6)]
     cut = {"gd": ',"np":', "gq": ',"i":[', "pl": ',"l":[', "nd": ',"pr":[', "dp": ',"olg":', "ns": ',"out":[', "di": ',"pli":',
-           "ne": ',"ix":[', "pa": ',"v":', "ne_abort": ',"status":'}.get(k)
+           "ne": ',"ix":[', "pa": ',"v":', "ne_abort": ',"status":', "wc": ',"len":'}.get(k)
     j = ln.find(cut) if cut else -1
     return ln[:j] if j > 0 else ln
 
@@ -73,6 +73,8 @@ def _nontrivial(ln):
         return any(v != 0 for v in e["ix"][1:])
     if k == "pa":
         return e["v"] == 1
+    if k == "wc":
+        return e["coded"] == 1 and (e["nf"] > 1 or e["e"]["st"] == 2)
     if k == "di":
         return e["st"] == 2 or any(abs(v) > 4 for v in e["ix"][1:])
     return k == "dp"
@@ -164,7 +166,9 @@ def run(ctx):
                 "(raw-gain grid, random frames), silk_decode_pitch (whole index domain), silk_NLSF_decode+NLSF2A (first-stage x extremes, "
                 "random residuals in +-10), silk_decode_parameters (random chained frames), silk_decode_indices on random range-coder input "
                 "followed by silk_decode_parameters, and on the encoder side silk_NLSF_encode (then silk_NLSF_decode) and "
-                "silk_pitch_analysis_core_FLP on synthetic voiced frames; every event is judged by SilkTrace!CaseOK. "
+                "silk_pitch_analysis_core_FLP on synthetic voiced frames, and the whole codec (SILK-only opus_encode -> opus_decode, NB/MB/WB, "
+                "10-60 ms, CBR/VBR 5-40 kb/s incl. a starved 40/60 ms CBR corner, mono/stereo, gliding-pitch / speech-like / noise signals) "
+                "comparing per packet and channel the side information both sides hold; every event is judged by SilkTrace!CaseOK. "
                 "non-trivial = distinct recorded cases (by their inputs) in which a clamp/floor/double step is active (gains), a contour "
                 "or the lag clamp is active (pitch), some residual is non-zero (NLSF), a voiced frame or an extended residual (decode_indices), "
                 "plus every decode_parameters frame")
@@ -234,12 +238,14 @@ def run(ctx):
     if tier == "quick":
         jobs = [("gains", [s, 2000]), ("gquant", [s + 1, 4000]), ("pitch", []), ("nlsf", [s + 2, 4, 0]),
                 ("stab", [s + 3, 3000]), ("dparams", [s + 4, 200]), ("indices", [s + 5, 250]),
-                ("pitchenc", [s + 6, 4000]), ("nlsfenc", [s + 7, 2000])]
+                ("pitchenc", [s + 6, 4000]), ("nlsfenc", [s + 7, 2000]),
+                ("codec", [s + 20, 12, 8, 50]), ("codec", [s + 21, 12, 8, 50]), ("codec", [s + 22, 12, 8, 50])]
     else:
         jobs = [("gains", [s, 30000]), ("gquant", [s + 1, 60000]), ("pitch", []), ("nlsf", [s + 2, 120, 1200]),
                 ("nlsf", [s + 12, 120, 1200]), ("stab", [s + 3, 30000]), ("dparams", [s + 4, 2000]), ("dparams", [s + 14, 2000]),
                 ("indices", [s + 5, 2500]), ("indices", [s + 15, 2500]),
                 ("pitchenc", [s + 6, 60000]), ("nlsfenc", [s + 7, 6000]), ("nlsfenc", [s + 17, 6000])]
+        jobs += [("codec", [s + 20 + i, 24, 24, 120]) for i in range(8)]
 
     def gen(job):
         i, (cmd, args) = job
@@ -266,6 +272,10 @@ def run(ctx):
     n_ne = sum(1 for x in lines if x.startswith('{"k":"ne",'))
     n_ne_abort = sum(1 for x in lines if x.startswith('{"k":"ne_abort"'))
     ctx.notes["nlsf_encode_inputs_outside_arithmetic_domain"] = n_ne_abort      # skipped: the quantiser's 32-bit RD sums overflowed
+    n_wc_err = sum(1 for x in lines if x.startswith('{"k":"wc_err"'))
+    n_wc = sum(1 for x in lines if x.startswith('{"k":"wc",'))
+    if (n_wc_err or n_wc < 500) and not ctx.violations:
+        raise vf.Infra("whole-codec driver: %d packets compared, %d encode/decode errors" % (n_wc, n_wc_err))
     if n_ne < 4 * n_ne_abort and not ctx.violations:
         raise vf.Infra("silk_NLSF_encode aborted on %d of %d synthetic inputs: driver inputs no longer inside the quantiser's domain" % (n_ne_abort, n_ne + n_ne_abort))
     if per_kind.get("gains", 0) < 6720 or per_kind.get("pitch", 0) != n_lag:
@@ -382,7 +392,9 @@ META = dict(
                 "coefficients (also of interpolated vectors, also after the post-loss expansion) are the normative NLSF2A/LPC_fit result for some "
                 "number 0..16 of stabilising rounds and lie inside 16 bits before the cast; silk_decode_indices yields only indices inside the "
                 "modelled domains; encoder/decoder agreement: what silk_gains_quant, silk_NLSF_encode and the pitch analyser emit is codable and "
-                "decodes to exactly the gains / NLSFs / lags the encoder keeps. Judged by TLC on a harness measurement: every derived filter passes "
+                "decodes to exactly the gains / NLSFs / lags the encoder keeps; and at whole-codec level (opus_encode -> opus_decode, SILK-only) the "
+                "indices, last lag, accumulated gain level and NLSF vector the encoder holds for the last frame of each packet equal what the "
+                "decoder reconstructed. Judged by TLC on a harness measurement: every derived filter passes "
                 "the library's own inverse-prediction-gain test (stable, power gain <= 1e4)."),
     level_note=("NOT decided: stability/bounded gain in any sense other than silk_LPC_inverse_pred_gain_c() != 0 measured on the recorded cases "
                 "(that function's 64-bit recursion is not modelled, so neither is the number of stabilising rounds NLSF2A chooses: the model accepts "
